@@ -248,6 +248,10 @@ class CQMap(Tensor):
     def caps(left, right):
         return CQMap.cups(left, right).dagger()
 
+    def map(self, func):
+        """ Apply a function elementwise. """
+        return CQMap(self.dom, self.cod, utensor=self.utensor.map(func))
+
     def round(self, decimals=0):
         """ Rounds the entries of a CQMap up to a number of decimals. """
         return CQMap(self.dom, self.cod, utensor=self.utensor.round(decimals))
